@@ -17,15 +17,15 @@ os.chdir(ROOT)
 
 # runs per tier; "build" = which binary decides the property
 CONFIG = {
-    'C01': dict(build='asan', quick=40000, thorough=4000000, level='exploration', mode='hist'),
+    'C01': dict(build='asan', quick=120000, thorough=4000000, level='exploration', mode='hist'),
     'C02': dict(build='asan', quick=40000, thorough=4000000, level='exploration', mode='hist'),
     'C03': dict(build='asan', quick=30000, thorough=3000000, level='exploration', mode='hist'),
     'C05': dict(build='asan', quick=40000, thorough=4000000, level='exploration', mode='hist'),
     'C06': dict(build='asan', quick=20000, thorough=2000000, level='exploration', mode='hist'),
-    'C07': dict(build='asan', quick=6000, thorough=400000, level='exploration', mode='hist+krylov'),
-    'C14': dict(build='asan', quick=33, thorough=1100, level='fault_enumeration', mode='fault'),
-    'C16': dict(build='asan', quick=40000, thorough=3000000, level='exploration', mode='svd'),
-    'C20': dict(build='tsan', quick=4000, thorough=600000, level='exploration', mode='sched'),
+    'C07': dict(build='asan', quick=20000, thorough=400000, level='exploration', mode='hist+krylov'),
+    'C14': dict(build='asan', quick=220, thorough=4400, level='fault_enumeration', mode='fault'),
+    'C16': dict(build='asan', quick=150000, thorough=3000000, level='exploration', mode='svd'),
+    'C20': dict(build='tsan', quick=40000, thorough=2000000, level='exploration', mode='sched'),
 }
 TIME_CAP = {'quick': 150.0, 'thorough': 1500.0}  # wall-clock safety cap per batch (seconds), enforced by the workers
 
@@ -136,8 +136,15 @@ def main():
                '--seconds', str(TIME_CAP[tier]), '--shapes', os.path.join(tmp, 'shapes.%d' % w), '--replay-dir', rdir, '--selfcheck', '50', '--max-reports', '3']
         procs.append(subprocess.Popen(cmd, stdout=subprocess.PIPE, stderr=open(os.path.join(tmp, 'stderr.%d' % w), 'w'), text=True, errors='replace', cwd=ROOT, env=env))
     summaries, candidates, engine_errors = [], [], []
+    engine_errors_early = engine_errors
+    deadline = time.time() + TIME_CAP[tier] * 4 + 300  # a hung worker is an engine error, not an endless check
     for w, p in enumerate(procs):
-        out, _ = p.communicate()
+        try:
+            out, _ = p.communicate(timeout=max(5.0, deadline - time.time()))
+        except subprocess.TimeoutExpired:
+            p.kill()
+            out, _ = p.communicate()
+            engine_errors_early.append({'msg': 'worker %d hung and was killed' % w})
         got_summary = False
         for line in out.splitlines():
             try:
